@@ -74,6 +74,18 @@ def plan(prop):
         for n in (1, 2, 3):
             obs.append((core, lambda ctx, n=n: co.ob_evaluate_with_constraints(ctx, n)))
     if prop == 'C03':
+        import pragmatic_obligations as po
+        prag = 'vrp-pragmatic'
+        for kind, dims in (('service', 1), ('pickup', 1), ('delivery', 2), ('break', 1), ('arrival', 1)):
+            obs.append((prag, lambda ctx, kind=kind, dims=dims: po.ob_writer_step(ctx, kind, dims)))
+        tours = [((), 1, (7, 3, 2, 2, 2)), (('service',), 1, (7, 3, 2, 2, 2)), (('pickup', 'delivery'), 1, (7, 3, 2, 2, 2)), (('delivery', 'pickup'), 2, (1, 2, 5, 5, 5)),
+                 (('delivery', 'break', 'pickup'), 1, (7, 3, 2, 2, 2))]
+        if not Q:
+            tours += [(('delivery', 'delivery', 'pickup'), 2, (7, 3, 2, 2, 2)), (('pickup', 'service', 'delivery', 'pickup'), 1, (1, 2, 5, 5, 5)),
+                      (('service', 'pickup', 'pickup', 'delivery'), 1, (7, 3, 2, 5, 4))]
+        for kinds, dims, wr in tours:
+            obs.append((prag, lambda ctx, kinds=kinds, dims=dims, wr=wr: po.ob_writer_tour(ctx, kinds, dims, wr)))
+        obs.append((prag, lambda ctx: po.ob_statistic_sum(ctx)))
         obs.append((core, lambda ctx: co.ob_total_cost_fold(ctx, 16, rates)))
     if prop == 'C20':
         obs.append((core, lambda ctx: co.ob_simple_objectives(ctx)))
@@ -115,7 +127,11 @@ def main():
     for crate, fn in obs:
         if crate not in ctxs:
             t0 = time.time()
-            ctxs[crate] = co.Ctx(crate, fresh=True)
+            if crate == 'vrp-pragmatic':
+                import pragmatic_obligations as po
+                ctxs[crate] = po.PCtx(fresh=True)
+            else:
+                ctxs[crate] = co.Ctx(crate, fresh=True)
             dump_s += time.time() - t0
         try:
             r = fn(ctxs[crate])
